@@ -857,7 +857,9 @@ def m_cloned(it, callee, args, m):
 
 
 def m_chain(it, callee, args, m):
-    a, b = to_iter(args[0]), to_iter(args[1])
+    # `iter.chain(vec)`: an owned Vec is consumed by value (IntoIterator for Vec<T> yields T, not &T)
+    by_value = lambda x: SeqIter([c.v for c in x.elems]) if isinstance(x, VecObj) else to_iter(x)
+    a, b = by_value(args[0]), by_value(args[1])
 
     def gen():
         for src in (a, b):
@@ -1405,6 +1407,17 @@ def m_cow_slice(it, callee, args, m):
     return as_slice(args[0])
 
 
+def m_cow_deref(it, callee, args, m):
+    """<Cow<'_, T> as Deref>::deref for a sized T: Borrowed(&T) -> that reference, Owned(T) -> a reference to the payload"""
+    r = args[0]
+    cow = deref(r)
+    if cow.variant == "Borrowed":
+        return cow.fields[0]
+    if isinstance(r, Ref):
+        return Ref(r.cell, r.path + (("field", 0),))
+    return Ref(Cell(cow.fields[0]))
+
+
 def m_to_vec(it, callee, args, m):
     sl = as_slice(args[0])
     return VecObj([copy_val(sl.vec.elems[sl.lo + i].v) for i in range(len(sl))])
@@ -1505,6 +1518,8 @@ def m_opt_unwrap_or_default(it, callee, args, m):
         return o.fields[0]
     if re.search(r"Option::<(usize|u64|u32|u8)>", callee):
         return usize(0)
+    if re.search(r"Option::<(std::vec::)?Vec<", callee):
+        return VecObj([])
     raise Unsupported("unwrap_or_default of a non-integer")
 
 
@@ -1914,6 +1929,17 @@ def key_lt(it, a, b):
         return False
     if isinstance(a, Adt) and a.name.split("<")[0].endswith("Reverse"):
         return key_lt(it, b.fields[0], a.fields[0])
+    da, db = deref(a), deref(b)
+    if isinstance(da, (VecObj, SliceRef)) and isinstance(db, (VecObj, SliceRef)):
+        # slices / strings compare lexicographically
+        sa, sb = as_slice(da), as_slice(db)
+        for i in range(min(len(sa), len(sb))):
+            x, y = sa.vec.elems[sa.lo + i].v, sb.vec.elems[sb.lo + i].v
+            if key_lt(it, x, y):
+                return True
+            if key_lt(it, y, x):
+                return False
+        return len(sa) < len(sb)
     raise Unsupported(f"key type {type(a)}")
 
 
@@ -1964,6 +1990,52 @@ def m_vec_retain(it, callee, args, m):
     return ()
 
 
+def m_vec_dedup_by_key(it, callee, args, m):
+    """Vec::dedup_by_key(key): consecutive elements with equal keys are collapsed, the first of each run is kept"""
+    v = deref(args[0])
+    clos = args[1]
+    kept, last_key = [], None
+    for c in list(v.elems):
+        k = it.call_closure(clos, [Ref(c)])
+        if kept and val_eq(it, k, last_key):
+            continue
+        kept.append(c)
+        last_key = k
+    v.elems = kept
+    return ()
+
+
+def m_str_to_lowercase(it, callee, args, m):
+    """str::to_lowercase: exact on ASCII; non-ASCII characters are not modelled"""
+    src = deref(args[0])
+    out = []
+    for c in src.chars:
+        if not it.ctx.branch(z3.ULE(c.t, 0x7F)):
+            raise Unsupported("str::to_lowercase of a non-ASCII char")
+        out.append(Int(ascii_lower(c), 32, False))
+    return StringObj(out)
+
+
+def m_vec_dedup_by(it, callee, args, m):
+    """Vec::dedup_by(same_bucket): for every element after the first, in order, same_bucket(&mut elem, &mut last_kept) is
+    called once; elements for which it returns true are removed (std's documented contract)"""
+    v = deref(args[0])
+    clos = args[1]
+    cell = Cell(clos)
+    name = it.closure_fn(clos)
+    fn = it.get_fn(name)
+    selfarg = Ref(cell) if fn.params[0][1].startswith("&") else clos
+    kept = []
+    for c in list(v.elems):
+        if kept:
+            r = it.call_fn(name, [selfarg, Ref(c), Ref(kept[-1])])
+            if it.ctx.branch(r):
+                continue
+        kept.append(c)
+    v.elems = kept
+    return ()
+
+
 def m_vec_remove(it, callee, args, m):
     v = deref(args[0])
     i = it.concretise_index(args[1], len(v.elems))
@@ -1994,6 +2066,7 @@ def m_vec_resize(it, callee, args, m):
 
 IT = r"(?:<.* as (?:Iterator|DoubleEndedIterator|ExactSizeIterator|IntoIterator)>|Iterator|DoubleEndedIterator)"
 MODELS = [
+    (r"^<Cow<'_, (?!\[)[\w:]+> as Deref>::deref$", m_cow_deref),
     (r"^(std::ops::|core::ops::)?Range::<.*>::contains::<", m_range_contains),
     (r"^Vec::<.*>::resize$", m_vec_resize),
     (r"^(std::ops::|core::ops::)?RangeInclusive::<.*>::contains::<", m_range_inclusive_contains),
@@ -2023,11 +2096,14 @@ MODELS = [
     (r"^core::slice::<impl \[.*\]>::split::<", m_slice_split),
     (r"^core::slice::<impl \[.*\]>::first(_mut)?$", m_slice_first),
     (r"^core::slice::<impl \[.*\]>::last$", m_slice_last),
-    (r"^core::slice::<impl \[.*\]>::get::<usize>$", m_slice_get),
+    (r"^core::slice::<impl \[.*\]>::get(_mut)?::<usize>$", m_slice_get),
     (r"^core::slice::<impl \[.*\]>::swap$", m_slice_swap),
     (r"^core::slice::<impl \[.*\]>::contains$", m_slice_contains),
     (r"^std::slice::<impl \[.*\]>::sort_by_key::<|^core::slice::<impl \[.*\]>::sort_unstable_by_key::<|^std::slice::<impl \[.*\]>::sort_by_cached_key::<", m_sort_by_key),
     (r"^Vec::<.*>::retain::<", m_vec_retain),
+    (r"^Vec::<.*>::dedup_by::<", m_vec_dedup_by),
+    (r"^Vec::<.*>::dedup_by_key::<", m_vec_dedup_by_key),
+    (r"^(std|core|alloc)::str::<impl str>::to_lowercase$", m_str_to_lowercase),
     (r"^Vec::<.*>::extend_from_slice$", m_extend_from_slice),
     (IT + r"::peekable$", m_peekable),
     (r"^<.* as Itertools>::tuple_windows::<", m_tuple_windows),
